@@ -70,6 +70,12 @@ CLAIMED["C04"] = dict(
     technique="Lean 4 prefix-stability theorem by strong induction + stream characterisation; exhaustive <=3-cut differential correspondence",
     note="Trusted: asyncio calls data_received once per segment and wakes the reader in the same loop iteration (observed on the virtual loop, not proved).")
 
+CLAIMED["C05"] = dict(
+    text="Theorems (Lean 4, unbounded): for EVERY payload length (every padding amount 0..15), every key, every 2-byte counter and any pad bytes the encrypted request of the model of _encode_encrypted_request is byte-for-byte the packet of an independent encoder and is decoded by a strict independent decoder (size field, pad nibble, type, SHA-256 tag all checked) to the same counter and payload; every encrypted response of the independent encoder - including padding 0 - is decoded by the model of _process_packet to exactly the payload sent; any alteration confined to the tag, of the start marker or of the magic byte is rejected with a protocol error outright; an alteration of header and/or ciphertext that keeps the tag can only be accepted if original and altered tagged texts are an explicit SHA-256 collision (CBC decryption injectivity is proved). AES-256-CBC round trips are proved for the Lean AES the driver runs. Tie: byte-exact correspondence of the real codec (pad bytes read back) for all lengths 0..300, spec decoder on real requests, real decoder on spec responses, every single-bit flip of header/ciphertext/tag for 6 lengths. One genuine defect found and repaired (fix: 1b0cf51).",
+    design="DESIGN.md §6 C05",
+    technique="Lean 4 round-trip theorems model vs independent spec over proved AES-CBC + reduction to a named SHA-256 collision; differential correspondence and bit-flip sweep",
+    note="A type-nibble flip 3->1 is handled at the LAN._read level (the result must then pass the V2 signature check); checked in the sweep.")
+
 NOT_YET = {
 }
 
